@@ -20,6 +20,15 @@ Input classes beyond integer meshes x (general | exactly special) planes:
   bool mask      a face subset presented as a boolean mask instead of indices;
   histories      several calls on ONE mesh object (parallel planes with one normal and a moving origin,
                  another normal, single-plane operations in between): every call is judged as if fresh.
+  in_band        a plane tilted by about 1e-7 .. 1e-6 rad off a mesh edge: one end of the edge is <= tol.merge / 10 from the
+                 plane (ON it for the library, which works with tol.merge), the other end 10 .. 100 tol.merge away;
+                 judged against the exact result AND the result of the snapped classification (either is right);
+  large scale    the same mesh x 2**20 / 2**30 (a metre in microns / nanometres), planes in general position:
+                 everything is held to 1e-9 of the size instead of 1e-9 absolute;
+  small scale    slices and caps too (mesh x 2**-17), planes exactly through vertices or >= 10 tol.merge away;
+  flat faces     convex solids whose flat faces are subdivided (straight runs of outline vertices on the cap),
+                 swept with planes through three mesh vertices, every engine: judged by the sentences of the
+                 statement alone (halves watertight, volumes add up), no exact oracle needed.
 
 What is asserted follows the statement:
   soundness      every reported endpoint lies on the plane and on its REPORTED source triangle
@@ -59,7 +68,12 @@ RULE = (
     "vertex (all operations, every cap engine), the mesh scaled by 2**-17 (sections), the normal scaled by "
     "2**-27 / 2**-33 / 2**16, face subsets as boolean masks, and histories of 9-10 calls on one mesh object "
     "(parallel planes: same normal with the origin moved along / inside the plane, another normal; "
-    "single-plane calls in between).  A case is one "
+    "single-plane calls in between); planes tilted by ~1e-7 rad off a mesh edge so that one end is within tol.merge / 10 of "
+    "the plane (or on it) and the other end 10 .. 100 tol.merge away (all operations, every cap engine; also on the mesh "
+    "x 2**-17 with the same absolute distances); the mesh x 2**20 / 2**30 with planes in general position (sections, "
+    "parallel planes, slices, caps per engine) and x 2**-17 (slices, caps); and a sweep of convex solids with subdivided "
+    "flat faces by planes through a vertex with a small integer normal, capped per engine, judged by the statement's own "
+    "sentences (halves watertight, volumes add up).  A case is one "
     "(operation, options, mesh, plane set); distinct = distinct digest of those; non-trivial = the "
     "plane meets the mesh (some vertex on or on both sides of the plane)."
 )
@@ -95,6 +109,13 @@ ASSUMPTIONS = [
     "2 x tol_path.merge (Hausdorff, both ways) when the section is >= 1e3 cells wide, to TOL when it is <= 10 cells "
     "wide (the grid is then no tolerance but the size of the object), not judged in between",
     "a plane normal shorter than 10 x tol.zero is not generated (the library treats it as the zero vector)",
+    "a vertex off the plane by <= tol.merge / 10 may be treated as on the plane (snapped) or exactly, face by face: "
+    "areas are held to the envelope of both answers, volumes to band x area, sections to band + 1e-9 off the plane; where an "
+    "edge makes an angle below 1e-4 / length with the plane the position of its cut point is not compared (ill-conditioned)",
+    "large-scale classes (mesh x 2**20, 2**30): every comparison is relative (1e-9 of a unit of the integer mesh); a float "
+    "plane cannot pass exactly through a vertex at that size, so only general position is judged there",
+    "capped results are not judged when two distinct exact vertices of the result (or two points where a later plane can "
+    "cut a chord of an earlier cap) are closer than 10 x tol.merge: the library merges vertices on a tol.merge grid",
     "a face coplanar with the cutting plane may be attributed to either slice (the statement only fixes "
     "the sum); a face subset passed as face_index may be returned alone or together with the untouched rest",
 ]
@@ -105,6 +126,10 @@ GAP = 1e-4  # vertices are exactly on the plane or at least this far away
 NEAR_GAP = 1e-7  # ... except in the near-vertex / small-scale classes: 10 x tol.merge
 PATH_MERGE = 1e-5  # tol_path.merge: absolute grid lines_to_path merges section endpoints on
 SMALL_SEXP = -17  # small-scale class: integer vertices x 2**-17 (one unit = 7.6e-6 < PATH_MERGE)
+LARGE_SEXPS = (20, 30)  # large-scale classes: integer vertices x 2**20 (1.0e6) / 2**30 (1.1e9), exact in float64
+BAND_IN = 1e-9  # in-band class: a vertex off the plane by no more than tol.merge / 10 is ON it for the library
+SEP_MIN = 1e-7  # caps merge vertices on the tol.merge grid: two DISTINCT exact vertices of the result closer than
+#                 10 x tol.merge are inside the threshold zone of that merge (may or may not be merged): not judged
 # non-unit normal classes: integer normal x 2**e.  The library compares n.(p-o) with tol.merge
 # without unitizing, i.e. its on-plane band is tol.merge/|n|
 NORMAL_EXPS = (-27, -33, 16)
@@ -116,6 +141,7 @@ MESH_CLASS = {
     "octahedron": "convex",
     "tetra": "convex",
     "hull": "convex",
+    "box_grid": "convex",
     "frame_torus": "genus1",
     "l_prism": "nonconvex",
     "polycube": "nonconvex",
@@ -246,8 +272,12 @@ def _edges(F):
     return sorted(E)
 
 
-def plane_of_class(rng, V, F, cls):
-    """(normal ints, origin Fractions) of one plane of the requested placement class, or None."""
+BANDS = ("in_band", "in_band_small")
+
+
+def plane_of_class(rng, V, F, cls, s=1.0):
+    """(normal ints, origin Fractions) of one plane of the requested placement class, or None.
+    `s`: scale at which the library will see the mesh (in_band only: its distances are absolute)."""
     nv, nf = len(V), len(F)
     used = np.unique(F)
     pick_v = lambda: int(used[int(rng.integers(len(used)))])
@@ -313,6 +343,34 @@ def plane_of_class(rng, V, F, cls):
             return None
         t = Fr(int(rng.choice([-1, 1])), 2 ** int(rng.integers(20, 23)))
         return n, tuple(Fr(int(V[a][i])) + n[i] * t for i in range(3))
+    if cls == "in_band":
+        # tilted by about 1e-7 .. 1e-6 rad off the mesh edge (a, b): through a + w da, b + w db and a third point
+        # (a vertex or any lattice point), w the integer normal of the untilted plane.  a ends up
+        # <= 5e-10 from the plane on either side (or exactly on it), b 1.3e-7 .. 1e-6 away on either side
+        # (absolute distances; for the mesh x 2**-17 that is a tilt of 1e-2 .. 1e-1 rad).
+        E = _edges(F)
+        a, b = E[int(rng.integers(len(E)))]
+        if int(rng.integers(2)):
+            a, b = b, a
+        c = V[pick_v()] if int(rng.integers(2)) else V[a] + np.array(_rand_n(rng), dtype=np.int64)
+        w = _icross(V[b] - V[a], c - V[a])
+        if not any(w):
+            return None
+        wl = math.sqrt(sum(x * x for x in w)) * s
+        ka = math.ceil(math.log2(wl / 5e-10))  # wl * 2**-ka in (2.5e-10, 5e-10] (absolute)
+        kb = ka - int(rng.integers(9, 12))  # 512 .. 2048 times further
+        da = Fr(int(rng.choice([-1, 0, 1, 1])), 2 ** ka)
+        db = Fr(int(rng.choice([-1, 1])), 2 ** kb)
+        p1 = tuple(Fr(int(V[a][i])) + w[i] * da for i in range(3))
+        p2 = tuple(Fr(int(V[b][i])) + w[i] * db for i in range(3))
+        p3 = tuple(Fr(int(c[i])) for i in range(3))
+        nq = C.cross(C.sub(p2, p1), C.sub(p3, p1))
+        den = 2 ** (ka + kb)
+        n = tuple(int(x * den) for x in nq)
+        assert all(Fr(n[i], den) == nq[i] for i in range(3))
+        if not any(n):
+            return None
+        return _gcd_reduce(n), p3
     if cls == "edge_mid":
         # through the midpoints of two edges of one face and a random direction: pattern --+ / -++
         f = F[int(rng.integers(nf))]
@@ -326,7 +384,8 @@ def plane_of_class(rng, V, F, cls):
     raise ValueError(cls)
 
 
-SPECIAL = ("vertex1", "vertex2", "vertex3", "edge", "face+", "face-", "vertex_cross", "edge_mid", "near_vertex")
+SPECIAL = ("vertex1", "vertex2", "vertex3", "edge", "face+", "face-", "vertex_cross", "edge_mid", "near_vertex", "in_band",
+           "in_band_small")
 
 
 def plane_record(n, o, cls):
@@ -361,8 +420,11 @@ def mesh_catalogue(run):
     # a single triangle and an open patch: "with holes" in the quantifier
     yield ("single_triangle", np.array([[0, 0, 0], [4, 1, 0], [1, 5, 2]], dtype=np.int64), np.array([[0, 1, 2]], dtype=np.int64))
     while True:
-        r = int(rng.integers(0, 9))
-        if r == 0:
+        r = int(rng.integers(0, 10))
+        if r == 9:
+            # convex with subdivided flat faces (straight runs of vertices on every section)
+            yield ("box_grid",) + block_grid(((1, 2, 2), (1, 2, 3), (2, 2, 2))[int(rng.integers(3))])
+        elif r == 0:
             yield ("tetra",) + G.tetra(rng)
         elif r in (1, 2):
             yield ("hull",) + G.hull_int(rng, int(rng.integers(5, 12)))
@@ -430,10 +492,16 @@ class Ctx:
         self.opts = case["opts"]
         # integer normal x 2**nexp handed to the library (never unitized by the harness)
         self.nexp = int(case["opts"].get("nexp", 0))
-        self.near = any(r.get("cls") == "near_vertex" for r in case["planes"])
-        # smallest allowed distance (absolute, as the library sees it) of an off-plane vertex
-        self.gap_abs = NEAR_GAP if (self.near or self.sexp) else GAP
-        self.tol = TOL / self.s  # TOL absolute, expressed in integer units
+        # in-band class: vertices <= BAND_IN off the plane are ON it for the library (tol.merge = 10 BAND_IN)
+        self.band = any(r.get("cls") in BANDS for r in case["planes"])
+        self.near = any(r.get("cls") in ("near_vertex",) + BANDS for r in case["planes"])
+        # smallest allowed distance (absolute, as the library sees it) of an off-plane vertex; the
+        # large-scale classes keep the gap of the integer mesh (1e-4 of a unit, >= 100 absolute)
+        self.gap_abs = NEAR_GAP if (self.near or self.sexp < 0) else GAP * max(1.0, self.s)
+        # TOL absolute, expressed in integer units; relative to the size for the large-scale classes
+        self.tol = TOL / min(1.0, self.s)
+        self.band_u = BAND_IN / self.s if self.band else 0.0  # integer units
+        self.match = MATCH / self.s if self.s <= 1.0 else TOL  # endpoint matching radius, integer units
         self.closed = topo_closed(self.F)
         self._mp = {}
         self.shared = None  # mesh object shared by the steps of a history
@@ -456,17 +524,20 @@ class Ctx:
         return n, o * self.s
 
     def mp(self, i=0):
+        """Classification as the library sees it: exact, except that in-band vertices count as on the plane."""
         if i not in self._mp:
-            self._mp[i] = C.MeshPlane(self.V, self.F, self.planes[i])
+            self._mp[i] = C.MeshPlane(self.V, self.F, self.planes[i], band=self.band_u if self.band else None)
         return self._mp[i]
 
     def placement(self):
         """Input class from exact facts (worst over the planes)."""
-        rank = {"general": 0, "near_vertex": 1, "vertex": 2, "edge": 3, "coplanar": 4}
+        rank = {"general": 0, "near_vertex": 1, "vertex": 2, "edge": 3, "coplanar": 4, "in_band": 5}
         best = "general"
         for i in range(len(self.planes)):
             mp = self.mp(i)
-            if any(s == (0, 0, 0) for s in mp.fsign):
+            if mp.in_band:
+                p = "in_band"
+            elif any(s == (0, 0, 0) for s in mp.fsign):
                 p = "coplanar"
             elif mp.has_edge_in_plane():
                 p = "edge"
@@ -507,23 +578,26 @@ class Ctx:
         if self.coarse is not None:
             # an input class in which one mechanism of the library is known to act (the class is
             # computed exactly by the oracle): one key per route, the fine symptom goes to the witness
-            kx, csym = self.coarse
+            kx, csym = self.coarse[:2]
             parts += ["%s=%s" % (k, v) for k, v in sorted(kx.items())]
+            if len(self.coarse) > 2 and sym.startswith("raised:"):
+                csym = sym  # (a class in which an exception is a mechanism of its own)
             return " ".join(parts + ["sym=%s" % csym])
         if sym == "repeated_index_face":
             # produced by one incomplete filter whatever the placement / engine
             return " ".join(parts + ["sym=%s" % sym])
         for k, v in sorted(extra.items()):
             parts.append("%s=%s" % (k, v))
-        if self.hist:
-            parts.append("hist=%s" % self.hist)
-        if self.sexp:
-            parts.append("scale=small")
-        if self.nexp:
-            parts.append("normal_length=%s" % ("tiny" if self.nexp < 0 else "huge"))
         if extra.get("section_graph") != "branching":
             # (a cap whose outline branches - figure-eight through a mesh vertex, in-plane edge
-            # fans - is one input class of its own: polygon recovery walks the outline graph)
+            # fans - is one input class of its own: polygon recovery walks the outline graph, whatever the
+            # scale, the length of the normal, the placement or the history of the object)
+            if self.hist:
+                parts.append("hist=%s" % self.hist)
+            if self.sexp:
+                parts.append("scale=%s" % ("small" if self.sexp < 0 else "large"))
+            if self.nexp:
+                parts.append("normal_length=%s" % ("tiny" if self.nexp < 0 else "huge"))
             parts += ["placement=%s" % self.placement(), "mesh=%s" % self.mclass]
         parts.append("sym=%s" % sym)
         return " ".join(parts)
@@ -540,8 +614,27 @@ def gap_ok(ctx):
 
     for i, pl in enumerate(ctx.planes):
         mp = ctx.mp(i)
-        if mp.min_offplane_distance() * ctx.s < ctx.gap_abs:
+        if ctx.band:
+            # exactly on the plane, clearly inside the library's band (<= tol.merge / 10) or clearly outside
+            dist = [abs(float(d)) / pl.nlen * ctx.s for d in mp.dv]  # absolute
+            inb = set(mp.in_band)
+            if any(d != 0 and k not in inb and d < ctx.gap_abs for k, d in enumerate(dist)):
+                return False
+            # input class (exact facts): a mesh edge with one end on the plane to tol.merge / 10 (exactly on it
+            # or not) and the other end off it by 10 .. 1e4 tol.merge
+            band_edge = any(
+                dist[u] <= BAND_IN and NEAR_GAP <= dist[v] < GAP
+                for f in ctx.F for u, v in ((f[0], f[1]), (f[1], f[0]), (f[1], f[2]), (f[2], f[1]), (f[2], f[0]), (f[0], f[2]))
+            )
+            if band_edge and ctx.coarse is None:
+                kx = {"placement": "band_edge"}
+                if ctx.sexp:
+                    kx["scale"] = "small"
+                ctx.coarse = (kx, "neither_exact_nor_snapped")
+        elif mp.min_offplane_distance() * ctx.s < ctx.gap_abs:
             return False
+        if ctx.sexp > 0 and 0 in mp.sv:
+            return False  # large-scale classes: no float plane passes exactly through a vertex at that size
         if ctx.nexp < 0:
             a = [abs(float(d)) * 2.0 ** ctx.nexp for d in mp.dv if d != 0]
             if any(tol.merge / 10 < x < tol.merge * 10 for x in a):
@@ -608,7 +701,7 @@ def judge_segments(run, ctx, route, lines, face_index, plane_index=0, faces=None
     if len(lines):
         # soundness: on the plane, on the reported triangle
         dpl = np.abs((lines.reshape(-1, 3) - of) @ nf)
-        if dpl.max() > tol_u:
+        if dpl.max() > tol_u + ctx.band_u:
             ok = False
             _viol(run, ctx, route, "off_plane", "a section endpoint does not lie on the plane", max_dist=float(dpl.max()))
         T = ctx.Vf[ctx.F[face_index]]
@@ -631,6 +724,18 @@ def judge_segments(run, ctx, route, lines, face_index, plane_index=0, faces=None
     missing = sorted(set(expected) - set(got))
     extra = sorted(set(got) - set(expected))
     dup = sorted(fi for fi, ks in got.items() if len(ks) > 1)
+    judged = None
+    if ctx.band:
+        # a face with a vertex inside the band may be sectioned as the exact signs or as the snapped ones
+        # say (both are the section to tol.merge); where an edge makes an angle of 1e-7 rad with the plane the
+        # position of the cut point ALONG the edge is ill-conditioned (rounding of the dot product / sine of the
+        # angle: 3e-9 seen): segment-by-segment comparison for the faces whose vertices are all on the plane
+        # or >= 1e-4 away; the others are judged for lying on the plane and on their triangle (well-conditioned)
+        near = {k for k, d in enumerate(mp.dv) if d != 0 and abs(float(d)) / pl.nlen * ctx.s < GAP}
+        judged = {fi for fi in range(len(ctx.F)) if not (set(int(i) for i in ctx.F[fi]) & near)}
+        missing = [fi for fi in missing if fi in judged]
+        extra = [fi for fi in extra if fi in judged]
+        run.count("sections_in_band(faces off the band vertices compared exactly)")
     if missing:
         ok = False
         fi = missing[0]
@@ -651,7 +756,7 @@ def judge_segments(run, ctx, route, lines, face_index, plane_index=0, faces=None
     for fi, (p, q) in expected.items():
         p, q = np.array(C.to_float(p)), np.array(C.to_float(q))
         exp_len += float(np.linalg.norm(p - q))
-        if fi in got:
+        if fi in got and (judged is None or fi in judged):
             s = lines[got[fi][0]]
             e = min(
                 max(np.abs(s[0] - p).max(), np.abs(s[1] - q).max()),
@@ -666,16 +771,16 @@ def judge_segments(run, ctx, route, lines, face_index, plane_index=0, faces=None
               expected=[C.to_float(x) for x in expected[worst_face]], got=lines[got[worst_face][0]].tolist(),
               _key={"pattern": mp.pattern(worst_face)[0]})
     got_len = float(np.linalg.norm(lines[:, 0] - lines[:, 1], axis=1).sum()) if len(lines) else 0.0
-    if abs(got_len - exp_len) > tol_u * max(1.0, exp_len) * 10:
+    if judged is None and abs(got_len - exp_len) > tol_u * max(1.0, exp_len) * 10:
         ok = False
         _viol(run, ctx, route, "total_length", "total section length differs from the exact intersection length",
               got=got_len, expected=exp_len)
     # closedness
     if ctx.closed and faces is None and len(lines):
         general = not mp.has_vertex_on_plane()
-        if general or _closed_pairs(np.array([[C.to_float(p), C.to_float(q)] for p, q in expected.values()]), MATCH / ctx.s):
+        if general or _closed_pairs(np.array([[C.to_float(p), C.to_float(q)] for p, q in expected.values()]), ctx.match):
             run.count("sections_closedness_checked")
-            if not _closed_pairs(lines, MATCH / ctx.s):
+            if not _closed_pairs(lines, ctx.match):
                 ok = False
                 _viol(run, ctx, route, "open_loop", "section of a watertight mesh has an endpoint matched an odd number of times")
     return ok
@@ -836,7 +941,7 @@ def judge_path(run, ctx, route, path, mp, expected, edge_in_plane, to3d, faces=N
         return
     Fsrc = ctx.F if faces is None else ctx.F[np.asarray(faces, dtype=np.int64)]
     d = np.abs((P - of) @ nf)
-    if d.max() > tol_u:
+    if d.max() > tol_u + ctx.band_u:
         _viol(run, ctx, route, "off_plane", "a path vertex does not lie on the section plane", max_dist=float(d.max()))
     ds, _ = surface_dist(P, ctx.Vf, Fsrc)
     if ds.max() > tol_u:
@@ -903,7 +1008,9 @@ def _judge_polylines(run, ctx, route, path, mp, expected, verts3, Fsrc, faces, c
         a, b = tuple(p), tuple(q)
         segs[frozenset((a, b))] = float(np.linalg.norm(np.array(C.to_float(p)) - np.array(C.to_float(q))))
     exp_len = sum(segs.values())  # coincident segments of overlapping sheets counted once
-    if len(segs) == len(expected):
+    if ctx.band:
+        run.count("path_length_skipped(in-band vertices: exact and snapped sections differ)")
+    elif len(segs) == len(expected):
         if abs(plen - exp_len) > 10 * ctx.tol * max(1.0, exp_len):
             _viol(run, ctx, route, "total_length", "path length differs from the exact intersection length",
                   got=plen * ctx.s, expected=exp_len * ctx.s)
@@ -958,7 +1065,9 @@ def op_multiplane(run, ctx):
         s = np.zeros(len(vd), dtype=int)
         s[vd - hfl < -tol.merge] = -1
         s[vd - hfl > tol.merge] = 1
-        usable.append(mp.min_offplane_distance() * ctx.s >= ctx.gap_abs and s.tolist() == mp.sv)
+        # (large-scale classes: no float plane passes exactly through a vertex at that size)
+        usable.append(mp.min_offplane_distance() * ctx.s >= ctx.gap_abs and s.tolist() == mp.sv
+                      and not (ctx.sexp > 0 and 0 in mp.sv))
     route = "mesh_multiplane"
     try:
         segs, T, fidx = intersections.mesh_multiplane(m, plane_origin=o, plane_normal=n, heights=hf)
@@ -1018,9 +1127,10 @@ def judge_slice(run, ctx, route, RV, RF, planes, faces=None, capped=False, label
     Result (RV, RF) of slicing the faces `faces` (None: all) by `planes` (kept: positive side
     of every plane).  Returns dict(area=..., ok=...).
     """
-    RV = np.asarray(RV, dtype=np.float64).reshape(-1, 3)
+    RV = np.asarray(RV, dtype=np.float64).reshape(-1, 3) / ctx.s  # integer units
     RF = np.asarray(RF).reshape(-1, 3)
     ok = True
+    tol_u = ctx.tol
     if len(RF) and (RF.dtype.kind not in "iu" or RF.min() < 0 or RF.max() >= len(RV)):
         _viol(run, ctx, route, "bad_faces", "slice result faces index outside its vertices")
         return {"ok": False, "area": float("nan")}
@@ -1040,12 +1150,12 @@ def judge_slice(run, ctx, route, RV, RF, planes, faces=None, capped=False, label
         nf /= np.linalg.norm(nf)
         of = np.array([float(c) for c in pl.o])
         d = (RV - of) @ nf
-        if len(used) and d[used].min() < -TOL:
+        if len(used) and d[used].min() < -(tol_u + ctx.band_u):
             ok = False
             _viol(run, ctx, route, "negative_side", "slice result has a vertex on the negative side of a plane",
                   min_signed_dist=float(d[used].min()), side=label, _key=dict(kx or {}))
         if len(RF):
-            inplane_any |= (np.abs(d[RF]) <= TOL).all(axis=1)
+            inplane_any |= (np.abs(d[RF]) <= tol_u + ctx.band_u).all(axis=1)
     if len(RF):
         # every face on the surface with the orientation of the face it lies on
         # (cap faces lie in a cutting plane instead)
@@ -1054,11 +1164,12 @@ def judge_slice(run, ctx, route, RV, RF, planes, faces=None, capped=False, label
         a2 = np.linalg.norm(cr, axis=1)
         cen = T.mean(axis=1)
         check = a2 > 1e-9
-        if capped:
+        if capped or ctx.band_u:
+            # (cap faces lie in the cutting plane; so may a surface face whose vertices are all inside the band)
             check &= ~inplane_any
         if check.any():
             d, near = surface_dist(cen[check], ctx.Vf, ctx.F if faces is None else ctx.F[np.asarray(faces)])
-            if d.max() > TOL:
+            if d.max() > tol_u:
                 ok = False
                 _viol(run, ctx, route, "off_surface", "a face of the slice result does not lie on the original surface",
                       max_dist=float(d.max()), side=label, _key=dict(kx or {}))
@@ -1073,7 +1184,7 @@ def judge_slice(run, ctx, route, RV, RF, planes, faces=None, capped=False, label
                 k, msrc = len(Pc), len(Fsrc)
                 dall = tri_dist(np.repeat(Pc, msrc, axis=0), np.tile(Ts[:, 0], (k, 1)), np.tile(Ts[:, 1], (k, 1)),
                                 np.tile(Ts[:, 2], (k, 1))).reshape(k, msrc)
-                same = ((nr @ ns.T) > 1.0 - 1e-6) & (dall <= TOL)
+                same = ((nr @ ns.T) > 1.0 - 1e-6) & (dall <= tol_u)
                 if not same.any(axis=1).all():
                     ok = False
                     _viol(run, ctx, route, "orientation", "a face of the slice result is wound against the surface it lies on",
@@ -1084,11 +1195,56 @@ def judge_slice(run, ctx, route, RV, RF, planes, faces=None, capped=False, label
             if len(RF) else 0.0}
 
 
+def _area_bounds(ctx, planes, faces=None):
+    """
+    (oracle, lower, upper) for the area kept by `planes`.  In-band class: per face the smaller / larger of the
+    exact answer and the answer of the snapped classification (a vertex <= tol.merge / 10 off the plane counted
+    as on it) - a code working with tol.merge may give either, per face.
+    """
+    orc = C.SliceOracle(ctx.V, ctx.F, planes, faces=faces)
+    if not ctx.band:
+        return (orc,) + orc.area_bounds()
+    snap = C.SliceOracle(ctx.V, ctx.F, planes, faces=faces, band=ctx.band_u)
+    lo = sum(float(min(orc.ratio_lo[f], snap.ratio_lo[f])) * orc.face_area(f) for f in orc.faces)
+    hi = sum(float(max(orc.ratio_hi[f], snap.ratio_hi[f])) * orc.face_area(f) for f in orc.faces)
+    orc.coplanar |= snap.coplanar
+    orc.snapped = snap
+    return orc, lo, hi
+
+
+def _min_separation(orc, s):
+    """Smallest distance (absolute) between two DISTINCT exact vertices of the clipped surface."""
+    from scipy.spatial import cKDTree
+
+    pts = sorted({tuple(p) for poly in orc.poly_hi.values() for p in poly})
+    if len(pts) < 2:
+        return float("inf")
+    P = np.array([C.to_float(p) for p in pts]) * s
+    return float(cKDTree(P).query(P, k=2)[0][:, 1].min())
+
+
+def _cap_diagonal_separation(ctx, p1, p2):
+    """
+    The second plane also cuts the triangles of the first cap, whatever triangulation the engine chose: smallest
+    distance (absolute) between two distinct points where p2 can cut a chord of the exact section polygon of p1.
+    """
+    from scipy.spatial import cKDTree
+
+    mp1 = C.MeshPlane(ctx.V, ctx.F, p1)
+    pts = {tuple(p) for seg in mp1.expected_segments().values() for p in seg} | {mp1.V[i] for i in mp1.vertices_on_plane()}
+    d = {p: p2.d(p) for p in pts}
+    pos, neg = [p for p in pts if d[p] > 0], [p for p in pts if d[p] < 0]
+    X = {tuple(C.lerp(u, v, d[u] / (d[u] - d[v]))) for u in pos for v in neg} | {p for p in pts if d[p] == 0}
+    if len(X) < 2:
+        return float("inf")
+    P = np.array([C.to_float(p) for p in X]) * ctx.s
+    return float(cKDTree(P).query(P, k=2)[0][:, 1].min())
+
+
 def _call_slice(ctx, m, planes, route, face_index=None, cap=False, engine=None):
     """Run one of the slicing entry points; returns (vertices, faces)."""
     from trimesh import intersections
 
-    assert not ctx.sexp  # the small-scale class is for sections only
     ns, os_ = zip(*[ctx.pf(pl) for pl in planes])
     if route == "slice_faces_plane" or route == "slice_faces_plane:cached_dots":
         assert len(planes) == 1
@@ -1132,15 +1288,15 @@ def op_slice(run, ctx):
             _viol(run, ctx, route, "raised:" + type(e).__name__, "slicing raised on a valid mesh/plane", error=repr(e)[:300], side=label,
                   _key={"subset": "yes" if sub is not None else "no"})
             return
-        orc = C.SliceOracle(ctx.V, ctx.F, [p], faces=sub)
-        lo, hi = orc.area_bounds()
+        orc, lo, hi = _area_bounds(ctx, [p], faces=sub)
         j = judge_slice(run, ctx, route, RV, RF, [p], faces=None, label=label)
         res[label] = (j, lo, hi, orc)
         if not j["ok"]:
             continue
         scale = max(1.0, hi)
         area = j["area"]
-        in_b = lo - 10 * TOL * scale <= area <= hi + 10 * TOL * scale
+        TOLA = ctx.tol  # (integer units; the absolute 1e-9 at unit scale)
+        in_b = lo - 10 * TOLA * scale <= area <= hi + 10 * TOLA * scale
         if sub is not None:
             sem = "subset_only" if in_b else None
             if not in_b:
@@ -1148,7 +1304,7 @@ def op_slice(run, ctx):
                 chosen = set(sub)
                 rest = [i for i in range(len(ctx.F)) if i not in chosen]
                 rest_area = C.SliceOracle(ctx.V, ctx.F, [], faces=rest).total_area()
-                if lo + rest_area - 10 * TOL * scale <= area <= hi + rest_area + 10 * TOL * scale:
+                if lo + rest_area - 10 * TOLA * scale <= area <= hi + rest_area + 10 * TOLA * scale:
                     sem, in_b = "subset_sliced_rest_kept", True
                     extra_total += rest_area
             if sem:
@@ -1157,16 +1313,16 @@ def op_slice(run, ctx):
             res[label][0]["ok"] = False
             _viol(run, ctx, route, "area", "area of the slice differs from the exact area on the positive side",
                   got=area, lo=lo, hi=hi, side=label, _key={"subset": "yes" if sub is not None else "no"})
-        elif sub is None and not orc.coplanar:
+        elif sub is None and not orc.coplanar and not ctx.band:
             exact = np.array([float(sum(orc.ratio_hi[f] * orc.N2[f][i] for f in orc.faces)) / 2.0 for i in range(3)])
-            if np.abs(j["avec"] - exact).max() > 10 * TOL * scale:
+            if np.abs(j["avec"] - exact).max() > 10 * TOLA * scale:
                 _viol(run, ctx, route, "vector_area", "vector area of the slice differs from the exact one (winding / shape of the cut pieces)",
                       got=j["avec"].tolist(), expected=exact.tolist(), side=label)
     if len(res) == 2 and res["+"][0]["ok"] and res["-"][0]["ok"]:
         total = res["+"][3].total_area() + extra_total
         s = res["+"][0]["area"] + res["-"][0]["area"]
         run.count("slice_sum_checked")
-        if abs(s - total) > 10 * TOL * max(1.0, total):
+        if abs(s - total) > 10 * ctx.tol * max(1.0, total):
             _viol(run, ctx, route, "area_sum", "areas of the two opposite slices do not add up to the original area",
                   plus=res["+"][0]["area"], minus=res["-"][0]["area"], total=total,
                   _key={"subset": "yes" if sub is not None else "no"})
@@ -1194,7 +1350,8 @@ def op_slice_multi(run, ctx):
     if not j["ok"]:
         return
     scale = max(1.0, hi)
-    ok = lo - 10 * TOL * scale <= j["area"] <= hi + 10 * TOL * scale
+    TOLA = ctx.tol
+    ok = lo - 10 * TOLA * scale <= j["area"] <= hi + 10 * TOLA * scale
     if sub is not None and not ok:
         # the other reading of a face subset: the faces outside it come back too (sliced by the later planes
         # like everything else that is left, or untouched) - accepted, as for a single plane
@@ -1203,7 +1360,7 @@ def op_slice_multi(run, ctx):
         r_all = C.SliceOracle(ctx.V, ctx.F, [], faces=rest).total_area()
         r_lo, r_hi = C.SliceOracle(ctx.V, ctx.F, ctx.planes[1:], faces=rest).area_bounds()
         for a, b in ((r_all, r_all), (r_lo, r_hi)):
-            if lo + a - 10 * TOL * scale <= j["area"] <= hi + b + 10 * TOL * scale:
+            if lo + a - 10 * TOLA * scale <= j["area"] <= hi + b + 10 * TOLA * scale:
                 ok = True
     if sub is not None:
         run.count("slice_multi_with_face_subset")
@@ -1214,6 +1371,20 @@ def op_slice_multi(run, ctx):
 
 def op_cap(run, ctx):
     """Capped slice of a watertight solid by one plane, both sides; opts: engine."""
+    restore = ctx.coarse
+    if ctx.section_graph() == "branching":
+        if ctx.band:
+            # both input classes with a known mechanism at once: each is judged on its own elsewhere
+            run.skip("cap: branching outline AND vertices inside the tol.merge band")
+            return
+        ctx.coarse = None  # a branching cap outline is an input class of its own, whatever else the case is
+    try:
+        _op_cap(run, ctx)
+    finally:
+        ctx.coarse = restore
+
+
+def _op_cap(run, ctx):
     m = ctx.mesh()
     engine = ctx.opts.get("engine")
     route = "slice_plane:cap"
@@ -1232,21 +1403,26 @@ def op_cap(run, ctx):
     kx = {"section_graph": sg}
     if sg == "simple":
         kx["engine"] = engine
+    TOLA = ctx.tol
     vols = {}
     for label, p in (("+", pl), ("-", pl.flipped())):
+        orc, lo, hi = _area_bounds(ctx, [p])
+        if _min_separation(getattr(orc, "snapped", orc), ctx.s) < SEP_MIN:
+            run.skip("cap: two distinct exact vertices of the result within 10 tol.merge (threshold zone of the vertex merge)")
+            return
         try:
             RV, RF = _call_slice(ctx, m, [p], "slice_plane", cap=True, engine=engine)
         except Exception as e:  # noqa
             _viol(run, ctx, route, "raised:" + type(e).__name__, "capped slicing raised on a watertight solid",
                   error=repr(e)[:300], side=label, _key=kx)
             return
-        orc = C.SliceOracle(ctx.V, ctx.F, [p])
-        j = judge_slice(run, ctx, route, RV, RF, [p], capped=True, label=label, kx=kx)
+        RV = RV / ctx.s  # integer units
+        j = judge_slice(run, ctx, route, RV * ctx.s, RF, [p], capped=True, label=label, kx=kx)
         if not j["ok"]:
             return
-        lo, hi = orc.area_bounds()
         # surface part: faces not lying in the plane
-        if abs(j["area_offplane"] - lo) > 10 * TOL * max(1.0, hi):
+        slack = 10 * TOLA * max(1.0, hi)
+        if not (lo - slack <= j["area_offplane"] <= (hi if ctx.band else lo) + slack):
             _viol(run, ctx, route, "surface_area", "off-plane part of the capped half differs from the exact positive-side area",
                   got=j["area_offplane"], expected=lo, side=label, _key=kx)
         vols[label] = volume_about(RV, RF, np.zeros(3))
@@ -1256,18 +1432,20 @@ def op_cap(run, ctx):
             if not watertight:
                 _viol(run, ctx, route, "half_not_watertight", "capped half of a convex solid is not watertight",
                       side=label, n_faces=int(len(RF)), _key=kx)
+        # (a cap moved by the band changes the volume by no more than band x area)
+        vslack = 10 * TOLA * max(1.0, abs(vol_total)) + ctx.band_u * orc.total_area()
         if watertight or not len(RF):
             # closed half: its volume is well defined and must be the exact one
             run.count("closed_half_volume_checked")
             exact = float(orc.volume6_about(p.o)) / 6.0
             got = volume_about(RV, RF, ref)
-            if abs(got - exact) > 10 * TOL * max(1.0, abs(vol_total)):
+            if abs(got - exact) > vslack:
                 _viol(run, ctx, route, "half_volume", "volume of a watertight capped half differs from the exact volume on that side",
                       got=got, expected=exact, side=label, _key=kx)
         else:
             run.count("open_half(nonconvex, not judged watertight)")
     run.count("cap_volume_sum_checked")
-    if abs(vols["+"] + vols["-"] - vol_total) > 10 * TOL * max(1.0, abs(vol_total)):
+    if abs(vols["+"] + vols["-"] - vol_total) > vslack:
         _viol(run, ctx, route, "volume_sum", "volumes of the two capped halves do not add up to the original volume",
               plus=vols["+"], minus=vols["-"], total=vol_total, _key=kx)
 
@@ -1281,12 +1459,19 @@ def op_cap_multi(run, ctx):
     engine = ctx.opts.get("engine")
     route = "slice_plane:cap:multi"
     p1, p2 = ctx.planes[0], ctx.planes[1]
-    if C.SliceOracle(ctx.V, ctx.F, [p1, p2]).min_gap < ctx.gap_abs:
+    parts = (("1", [p1]), ("12", [p1, p2]), ("1-2", [p1, p2.flipped()]))
+    orcs = {label: C.SliceOracle(ctx.V, ctx.F, planes) for label, planes in parts}
+    if orcs["12"].min_gap < ctx.gap_abs:
         run.skip("multi-plane: an intermediate cut vertex falls inside the threshold band of a later plane")
+        return
+    if min(min(_min_separation(o, ctx.s) for o in orcs.values()), _cap_diagonal_separation(ctx, p1, p2)) < SEP_MIN:
+        # (seen in the thorough tier: a micron-wide needle left by the first plane is cut by the second one
+        # into points 4.5e-9 apart; the tol.merge grid of the cap code merges some of them and not others)
+        run.skip("cap: two distinct exact vertices of the result within 10 tol.merge (threshold zone of the vertex merge)")
         return
     ref = np.array([0.37, -0.21, 0.11])
     out = {}
-    for label, planes in (("1", [p1]), ("12", [p1, p2]), ("1-2", [p1, p2.flipped()])):
+    for label, planes in parts:
         try:
             RV, RF = _call_slice(ctx, m, planes, "slice_plane", cap=True, engine=engine)
         except Exception as e:  # noqa
@@ -1300,14 +1485,77 @@ def op_cap_multi(run, ctx):
             _viol(run, ctx, route, "part_not_watertight", "convex solid capped by two planes is not watertight",
                   part=label, _key={"engine": engine})
             return
-        out[label] = volume_about(RV, RF, ref)
-    exact1 = float(C.SliceOracle(ctx.V, ctx.F, [p1]).volume6_about(p1.o)) / 6.0
+        out[label] = volume_about(RV / ctx.s, RF, ref)
+    exact1 = float(orcs["1"].volume6_about(p1.o)) / 6.0
     scale = max(1.0, abs(C.volume6(ctx.V, ctx.F) / 6.0))
-    if abs(out["1"] - exact1) > 10 * TOL * scale:
+    if abs(out["1"] - exact1) > 10 * ctx.tol * scale:
         _viol(run, ctx, route, "half_volume", "volume of the capped half differs from the exact value", got=out["1"], expected=exact1)
-    if abs(out["12"] + out["1-2"] - out["1"]) > 10 * TOL * scale:
+    if abs(out["12"] + out["1-2"] - out["1"]) > 10 * ctx.tol * scale:
         _viol(run, ctx, route, "volume_sum", "the two parts of a capped half do not add up to it",
               a=out["12"], b=out["1-2"], whole=out["1"], _key={"engine": engine})
+
+
+def block_grid(dims):
+    """Integer box whose flat faces are subdivided into unit squares (two triangles each): convex, watertight."""
+    return G.voxel_surface([(i, j, k) for i in range(dims[0]) for j in range(dims[1]) for k in range(dims[2])])
+
+
+SWEEP_DIMS = ((2, 3, 4), (1, 2, 3), (2, 2, 3), (3, 4, 5), (2, 4, 6))
+
+
+def execute_sweep(run, case):
+    """
+    Convex solid with subdivided flat faces x a plane through a mesh vertex with a small integer normal:
+    the cap outline has straight runs of vertices.  Judged by the sentences of the statement alone -
+    both capped halves watertight, their volumes add up - so no exact oracle is needed and thousands of
+    planes can be swept (every vertex is exactly on the plane or >= 1 / |n| >= 0.05 away: no tolerance
+    of the library is anywhere near).
+    """
+    V = np.array(case["mesh"]["V"], dtype=np.int64)
+    F = np.array(case["mesh"]["F"], dtype=np.int64)
+    pl = plane_from_record(case["planes"][0])
+    engine = case["opts"].get("engine")
+    n = np.array([float(c) for c in pl.n])
+    o = np.array([float(c) for c in pl.o])
+    m = G.to_trimesh(V, F)
+    vol = C.volume6(V, F) / 6.0
+    key = "op=cap_sweep route=slice_plane:cap engine=%s faces=flat_subdivided placement=vertex mesh=convex sym=%%s" % engine
+    vols, sizes = [], []
+    for side, sgn_ in (("+", 1.0), ("-", -1.0)):
+        try:
+            r = m.slice_plane(plane_origin=o, plane_normal=n * sgn_, cap=True, **({} if engine is None else {"engine": engine}))
+        except Exception as e:  # noqa
+            run.violation(key % ("raised:" + type(e).__name__), "capped slicing raised on a convex solid",
+                          dict(case, observed={"error": repr(e)[:300], "side": side}))
+            return
+        RV, RF = np.asarray(r.vertices, dtype=np.float64), np.asarray(r.faces)
+        sizes.append(len(RF))
+        vols.append(volume_about(RV, RF, np.zeros(3)))
+        if len(RF) and not topo_watertight(RF):
+            run.violation(key % "half_not_watertight", "capped half of a convex solid is not watertight",
+                          dict(case, observed={"side": side, "n_faces": int(len(RF))}))
+            return
+    if abs(vols[0] + vols[1] - vol) > 1e-9 * max(1.0, abs(vol)):
+        run.violation(key % "volume_sum", "volumes of the two capped halves do not add up to the original volume",
+                      dict(case, observed={"plus": vols[0], "minus": vols[1], "total": vol}))
+    run.state("cap_engine", str(engine))
+    run.case("cap_sweep:convex:vertex", "cap_sweep", str(engine), V, F, case["planes"][0]["n"], case["planes"][0]["o"],
+             nontrivial=all(sizes), sample=case if (run.evaluations % 701 == 0) else None)
+
+
+def sweep(run, n_planes):
+    """n_planes planes of the flat-face sweep (see execute_sweep); stops on the budget."""
+    rng = run.rng
+    done = 0
+    while done < n_planes and not run.out_of_time(0.2):
+        V, F = block_grid(SWEEP_DIMS[int(rng.integers(len(SWEEP_DIMS)))])
+        for _ in range(50):
+            v = V[int(rng.integers(len(V)))]
+            rec = plane_record(_rand_n(rng), tuple(Fr(int(c)) for c in v), "vertex1")
+            eng = (None, "earcut", "earcut", "earcut", "earcut", "earcut", "triangle", "manifold")[done % 8]
+            execute(run, make_case("cap_sweep", "box_grid", V, F, [rec], unit=False, engine=eng))
+            done += 1
+    run.count("flat_face_sweep_planes", done)
 
 
 OPS = {
@@ -1367,8 +1615,15 @@ def execute(run, case, record=True, shared=None, hist=None, parent=None):
     if case["op"] == "history":
         execute_history(run, case)
         return
+    if case["op"] == "cap_sweep":
+        execute_sweep(run, case)
+        return
     ctx = Ctx(case)
     ctx.shared, ctx.hist, ctx.parent = shared, hist, parent
+    if ctx.sexp > 0:
+        # one input class, computed exactly: the same integer mesh in units a million / a billion times smaller.
+        # The library's absolute 1e-8 / 1e-5 grids then sit below the rounding of its own arithmetic
+        ctx.coarse = ({"scale": "large"}, "differs_from_exact", "exceptions apart")
     if case["op"] != "multiplane" and not gap_ok(ctx):
         run.skip("plane inside the threshold band of some vertex")
         return
@@ -1379,7 +1634,8 @@ def execute(run, case, record=True, shared=None, hist=None, parent=None):
         )
         cls = ""
         if ctx.sexp:
-            cls += ":small_scale"
+            cls += ":small_scale" if ctx.sexp < 0 else ":large_scale"
+            run.state("scale_class", (case["op"], ctx.sexp))
         if ctx.nexp:
             cls += ":normal_tiny" if ctx.nexp < 0 else ":normal_huge"
         if ctx.opts.get("subset_as") == "mask":
@@ -1416,7 +1672,10 @@ def planes_for_mesh(run, V, F, n_general, n_special):
     while k < n_special and tries < 10 * n_special:
         tries += 1
         cls = SPECIAL[(k + tries) % len(SPECIAL)]
-        p = plane_of_class(rng, V, F, cls)
+        if cls == "in_band_small":
+            p = plane_of_class(rng, V, F, "in_band", s=2.0 ** SMALL_SEXP)
+        else:
+            p = plane_of_class(rng, V, F, cls)
         if p:
             out.append((cls,) + p)
             k += 1
@@ -1484,6 +1743,8 @@ def workload(run):
     rng = run.rng
     quick = run.tier == "quick"
     n_general, n_special = (9, 23) if quick else (30, 63)
+    # flat-face sweep first (cheap: ~2 ms a call); its hit rate on the unchanged tree is about one plane in 1500
+    sweep(run, 1200 if quick else 12000)
     mesh_index = 0
     for tag, V, F in mesh_catalogue(run):
         mesh_index += 1
@@ -1500,6 +1761,18 @@ def workload(run):
                 break
             rec = plane_record(n, o, cls)
             unit = bool(pi % 2)
+            if cls == "in_band_small":
+                # built for the mesh x 2**-17 (band and gaps are absolute lengths): runs at that scale only
+                for roll in range(3):
+                    execute(run, make_case("mesh_plane", tag, V, F, [rec], unit=unit, sexp=SMALL_SEXP, roll=roll))
+                execute(run, make_case("section", tag, V, F, [rec], unit=unit, sexp=SMALL_SEXP))
+                for roll in range(3):
+                    route = ("slice_plane", "slice_faces_plane", "slice_faces_plane:cached_dots")[(pi + roll) % 3]
+                    execute(run, make_case("slice", tag, V, F, [rec], unit=unit, sexp=SMALL_SEXP, roll=roll, route=route))
+                if closed and mclass != "overlapping":
+                    for eng in (None,) + ENGINES:
+                        execute(run, make_case("cap", tag, V, F, [rec], unit=unit, sexp=SMALL_SEXP, engine=eng, roll=pi % 3))
+                continue
             # sections: all three index rotations of the faces
             for roll in range(3):
                 execute(run, make_case("mesh_plane", tag, V, F, [rec], unit=unit, roll=roll))
@@ -1525,7 +1798,7 @@ def workload(run):
                 how = {"subset_as": "mask"} if pi % 8 in (2, 4) else {}
                 execute(run, make_case("slice", tag, V, F, [rec], unit=unit, route=route, face_index=sub, **how))
             # several planes at once
-            if pi % 3 == 0 and pi + 2 < len(planes):
+            if pi % 3 == 0 and pi + 2 < len(planes) and not {cls, planes[pi + 1][0], planes[pi + 2][0]} & set(BANDS):
                 recs = [rec] + [plane_record(planes[pi + j][1], planes[pi + j][2], planes[pi + j][0]) for j in (1, 2)][: 1 + pi % 2]
                 execute(run, make_case("slice_multi", tag, V, F, recs, unit=unit))
                 if len(F) > 2:
@@ -1535,20 +1808,20 @@ def workload(run):
                     execute(run, make_case("slice_multi", tag, V, F, recs, unit=unit, face_index=sub))
             # caps: watertight solids only
             if closed and mclass != "overlapping":
-                if cls == "near_vertex":
-                    # cut points a few microns apart on the cap outline: every engine
+                if cls in ("near_vertex", "in_band"):
+                    # cut points a few microns apart on the cap outline / vertices inside the band: every engine
                     for eng in (None,) + ENGINES:
                         execute(run, make_case("cap", tag, V, F, [rec], unit=unit, engine=eng, roll=pi % 3))
                 else:
                     eng = ENGINES[pi % 3] if pi % 4 else None
                     execute(run, make_case("cap", tag, V, F, [rec], unit=unit, engine=eng, roll=pi % 3))
-                if mclass == "convex" and pi % 4 == 1 and pi + 1 < len(planes):
+                if mclass == "convex" and pi % 4 == 1 and pi + 1 < len(planes) and not {cls, planes[pi + 1][0]} & set(BANDS):
                     rec2 = plane_record(planes[pi + 1][1], planes[pi + 1][2], planes[pi + 1][0])
                     execute(run, make_case("cap_multi", tag, V, F, [rec, rec2], unit=unit, engine=ENGINES[(pi // 4) % 3]))
             elif closed:
                 run.skip("cap on self-intersecting (overlapping) shells: not a solid")
             # the same plane given by a normal of another length (integer normal x 2**e, never unitized)
-            if pi % 4 == 3 and cls != "near_vertex":
+            if pi % 4 == 3 and cls not in ("near_vertex", "in_band"):
                 e = NORMAL_EXPS[(pi // 4) % len(NORMAL_EXPS)]
                 execute(run, make_case("mesh_plane", tag, V, F, [rec], unit=False, nexp=e))
                 execute(run, make_case("section", tag, V, F, [rec], unit=False, nexp=e))
@@ -1557,17 +1830,36 @@ def workload(run):
                 if closed and mclass != "overlapping":
                     execute(run, make_case("cap", tag, V, F, [rec], unit=False, nexp=e, engine=None))
             # the same mesh at a scale where its features are smaller than the path merge grid
-            if pi % 4 == 2 and cls != "near_vertex":
+            if pi % 4 == 2 and cls not in ("near_vertex", "in_band"):
                 execute(run, make_case("mesh_plane", tag, V, F, [rec], unit=unit, sexp=SMALL_SEXP))
                 execute(run, make_case("section", tag, V, F, [rec], unit=unit, sexp=SMALL_SEXP))
+                # slices and caps of the small mesh (the plane exactly through vertices or >= 10 tol.merge away)
+                route = ("slice_plane", "slice_faces_plane")[(pi // 4) % 2]
+                execute(run, make_case("slice", tag, V, F, [rec], unit=unit, sexp=SMALL_SEXP, route=route))
+                if closed and mclass != "overlapping":
+                    eng = (None,) + ENGINES
+                    execute(run, make_case("cap", tag, V, F, [rec], unit=unit, sexp=SMALL_SEXP, engine=eng[(pi // 4) % 4]))
+            # the same mesh a million / a billion times larger (general position: at that size a float
+            # plane no longer passes "exactly" through anything)
+            if cls == "general" and pi % 2 == 0:
+                big = LARGE_SEXPS[(pi // 2) % 2]
+                execute(run, make_case("mesh_plane", tag, V, F, [rec], unit=unit, sexp=big))
+                execute(run, make_case("section", tag, V, F, [rec], unit=unit, sexp=big))
+                route = ("slice_plane", "slice_faces_plane")[(pi // 4) % 2]
+                execute(run, make_case("slice", tag, V, F, [rec], unit=unit, sexp=big, route=route))
+                if closed and mclass != "overlapping":
+                    eng = (None,) + ENGINES
+                    execute(run, make_case("cap", tag, V, F, [rec], unit=unit, sexp=big, engine=eng[(pi // 2) % 4]))
         # parallel planes: vertex heights and heights between them
         for rep in range(2 if quick else 4):
             execute(run, multiplane_case(rng, tag, V, F, rep, quick))
         execute(run, multiplane_case(rng, tag, V, F, mesh_index, quick, sexp=SMALL_SEXP))
+        execute(run, multiplane_case(rng, tag, V, F, mesh_index, quick, sexp=LARGE_SEXPS[mesh_index % 2]))
         # histories: several calls on one mesh object
         for rep in range(1 if quick else 2):
-            if planes:
-                execute(run, history_case(rng, tag, V, F, planes, closed, mclass, quick))
+            hp = [p for p in planes if p[0] != "in_band_small"]
+            if hp:
+                execute(run, history_case(rng, tag, V, F, hp, closed, mclass, quick))
         run.state("mesh_class", mclass)
 
     # sub-claims whose sign pattern / rotation was never observed are inconclusive
@@ -1579,7 +1871,7 @@ def workload(run):
     for eng in ENGINES + ("None",):
         if eng not in run.states.get("cap_engine", set()):
             run.inconclusive("cap engine %s never exercised" % eng)
-    for name, need in (("history_relation", 3), ("path_zone", 2), ("normal_length_class", 2)):
+    for name, need in (("history_relation", 3), ("path_zone", 2), ("normal_length_class", 2), ("scale_class", 6)):
         if len(run.states.get(name, set())) < need:
             run.inconclusive("input class %s: fewer than %d states observed" % (name, need))
 
